@@ -850,8 +850,7 @@ impl Xot {
 
 fn normalize_xml_id(value: &str) -> String {
     // strip both leading and trailing space characters
-    let value = value.strip_prefix(' ').unwrap_or(value);
-    let value = value.strip_suffix(' ').unwrap_or(value);
+    let value = value.trim_matches(' ');
     // now take any repeated sequences of the space character ' ' and normalize
     // it to a single space character
     let mut result = String::with_capacity(value.len());
